@@ -1,3 +1,116 @@
+(* C04 — Recursive removal never touches anything outside the tree.
+
+   Vocabulary (Model.v): a file system maps PHYSICAL paths to entries (file / directory / symbolic link); path
+   resolution follows links the way the OS does, so a removal that walked through a link WOULD delete entries that
+   live elsewhere — the theorems say it never does.
+     dirs_above s p : every proper prefix of p is a real directory (p is a physical path: the caller names the tree
+                      by its real location);        wf s : whatever exists lives in a real directory;
+     under p q      : q is p or lies below p.
+   All theorems quantify over EVERY file system (any shape, any decoration with links to files, to directories inside
+   or outside the tree, to ancestors, to nothing, loops), every path, every exclusion predicate (one on base names,
+   used by the listing, one on full paths, used by the removal), every amount of fuel and both states of the context.
+   [remove ... true ...] is the code after the fix (Lstat first). *)
 From Coq Require Import List ZArith Bool.
 Import ListNotations.
 From GU Require Import C04.Model C04.Proofs.
+
+(* Rm / RemoveWithContext / RemoveWithContextAndExclusionPatterns / RemoveWithPrivileges (success path):
+   every entry that is not at or below p — in particular everything reachable from the tree only through a link —
+   is exactly what it was: same kind, same content, same link target. *)
+Theorem remove_confined : forall excl_name excl_path cancelled fuel s p,
+  dirs_above s p ->
+  forall q, ~ under p q ->
+  lookup (fst (remove excl_name excl_path true cancelled fuel s p)) q = lookup s q.
+Proof. exact remove_confined_l. Qed.
+Print Assumptions remove_confined.
+
+(* CleanDir...: the directory handed in is a real directory (or a file, or absent), not itself a link *)
+Theorem clean_dir_confined : forall excl_name excl_path cancelled fuel s p,
+  dirs_above s p -> not_link (lookup s p) ->
+  forall q, ~ under p q ->
+  lookup (fst (clean_dir excl_name excl_path true cancelled fuel s p)) q = lookup s q.
+Proof. exact clean_dir_confined_l. Qed.
+Print Assumptions clean_dir_confined.
+
+(* GarbageCollect...: for every age assignment *)
+Theorem gc_confined : forall cancelled old fuel s root,
+  dirs_above s root -> not_link (lookup s root) ->
+  forall q, ~ under root q ->
+  lookup (fst (garbage_collect true cancelled old fuel s root)) q = lookup s q.
+Proof. exact gc_confined_l. Qed.
+Print Assumptions gc_confined.
+
+(* success without exclusion patterns: nothing is left at or below p — links (dangling or not) included, since
+   [lookup] does not follow them *)
+Theorem remove_complete : forall excl_name excl_path cancelled fuel s p,
+  (forall n, excl_name n = false) -> (forall q, excl_path q = false) ->
+  wf s -> dirs_above s p ->
+  snd (remove excl_name excl_path true cancelled fuel s p) = Ok ->
+  forall q, under p q -> lookup (fst (remove excl_name excl_path true cancelled fuel s p)) q = None.
+Proof.
+  intros en ep c fuel s p Hen Hep Hwf Hd Hok. exact (remove_complete_l en ep Hen Hep c fuel s p Hwf Hd Hok).
+Qed.
+Print Assumptions remove_complete.
+
+(* CleanDir of a real directory: on success the directory is still there and nothing is left below it *)
+Theorem clean_dir_complete : forall excl_name excl_path cancelled fuel s p,
+  (forall n, excl_name n = false) -> (forall q, excl_path q = false) ->
+  wf s -> dirs_above s p -> lookup s p = Some EDir ->
+  snd (clean_dir excl_name excl_path true cancelled fuel s p) = Ok ->
+  lookup (fst (clean_dir excl_name excl_path true cancelled fuel s p)) p = Some EDir /\
+  forall q, under p q -> q <> p -> lookup (fst (clean_dir excl_name excl_path true cancelled fuel s p)) q = None.
+Proof. exact clean_dir_complete_l. Qed.
+Print Assumptions clean_dir_complete.
+
+(* an entry whose path matches an exclusion pattern survives unchanged, and all its ancestors are still directories
+   (whatever the call returns; the pass-down of the patterns, defect D11, is modelled as repaired) *)
+Theorem remove_keeps_excluded : forall excl_name excl_path cancelled fuel s p,
+  wf s -> dirs_above s p ->
+  forall q, excl_path q = true -> lookup s q <> None ->
+  survives_with_ancestors s (fst (remove excl_name excl_path true cancelled fuel s p)) q.
+Proof. exact remove_keeps_excluded_l. Qed.
+Print Assumptions remove_keeps_excluded.
+
+Theorem clean_dir_keeps_excluded : forall excl_name excl_path cancelled fuel s p,
+  wf s -> dirs_above s p -> not_link (lookup s p) ->
+  forall q, excl_path q = true -> lookup s q <> None ->
+  survives_with_ancestors s (fst (clean_dir excl_name excl_path true cancelled fuel s p)) q.
+Proof. exact clean_dir_keeps_excluded_l. Qed.
+Print Assumptions clean_dir_keeps_excluded.
+
+(* The code BEFORE the fix (Stat-based tests only) violates both halves of the property; kept as documentation of the
+   repaired defect D10 — the harness replays this witness (tree/sub/lnk -> outside, tree/dangling) on every run. *)
+Theorem remove_refuted_without_lstat :
+  exists s p q, dirs_above s p /\ ~ under p q /\
+    snd (remove noex_n noex_p false false 10 s p) = Ok /\
+    lookup (fst (remove noex_n noex_p false false 10 s p)) q <> lookup s q /\     (* an outside file is deleted *)
+    lookup (fst (remove noex_n noex_p false false 10 s p)) p <> None.              (* and the tree is still there *)
+Proof.
+  exists witness, [nm 3], [nm 1; nm 2].
+  destruct without_lstat_outside_deleted as [H1 [H2 [H3 H4]]].
+  split; [exact witness_dirs_above|]. split; [exact witness_not_under|]. split; [exact H1|].
+  split; [rewrite H2, H3; discriminate | rewrite H4; discriminate].
+Qed.
+Print Assumptions remove_refuted_without_lstat.
+
+(* non-vacuity: on the same tree the repaired code succeeds, removes the tree (dangling link included) and keeps the
+   outside file; with the path-exclusion of tree/sub/lnk the link and its ancestors stay *)
+Example c04_nonvacuous_remove :
+  let r := remove noex_n noex_p true false 10 witness [nm 3] in
+  snd r = Ok /\ lookup (fst r) [nm 1; nm 2] = Some (EFile 7) /\ lookup (fst r) [nm 3] = None /\
+  lookup (fst r) [nm 3; nm 6] = None /\ lookup (fst r) [nm 1] = Some EDir.
+Proof. vm_compute. repeat split; reflexivity. Qed.
+
+Example c04_nonvacuous_excluded :
+  let ep := fun q : path => path_eqb q [nm 3; nm 4; nm 5] in
+  let r := remove (fun n => name_eqb n (nm 5)) ep true false 10 witness [nm 3] in
+  snd r = Ok /\ lookup (fst r) [nm 3; nm 4; nm 5] = Some (ELink [nm 1]) /\ lookup (fst r) [nm 3; nm 4] = Some EDir /\
+  lookup (fst r) [nm 3] = Some EDir /\ lookup (fst r) [nm 3; nm 6] = None.
+Proof. vm_compute. repeat split; reflexivity. Qed.
+
+Example c04_nonvacuous_clean_gc :
+  snd (clean_dir noex_n noex_p true false 10 witness [nm 3]) = Ok /\
+  children (fst (clean_dir noex_n noex_p true false 10 witness [nm 3])) [nm 3] = [] /\
+  lookup (fst (garbage_collect true false (fun _ => true) 10 witness [nm 3])) [nm 1; nm 2] = Some (EFile 7) /\
+  lookup (fst (garbage_collect false false (fun _ => true) 10 witness [nm 3])) [nm 1; nm 2] = None.
+Proof. vm_compute. repeat split; reflexivity. Qed.
